@@ -488,6 +488,9 @@ class Interp:
                 b = self.concretize_ptr(b)
                 if not isinstance(b, Ptr):
                     raise Unsupported('-> on %r at %s' % (b, self.where(e)))
+                st = getattr(b.obj, 'first_member', None)
+                if st and not b.path and seg == (st,):
+                    return (b.obj, (), qstr(e['type']))      # container-of-first-member view: c->node is the object itself
                 return (b.obj, b.path + seg, qstr(e['type']))
             b = e['inner'][0]
             if b.get('valueCategory') == 'prvalue':
